@@ -42,6 +42,12 @@ func ZZC18(n int) {
 		}
 		_, w3 := zzServe(r, zzReq("OPTIONS", "*"))
 		zzv.Assert(zzContains(zzSplitAllow(w3.h.Get("Allow")), "TRACE"), "trace:missing-from-the-Allow-set-of-OPTIONS-*")
+		// ... also after everything was cleaned away
+		r.Clean()
+		_, w4 := zzServe(r, zzReq("OPTIONS", "*"))
+		zzv.Assert(zzContains(zzSplitAllow(w4.h.Get("Allow")), "TRACE"), "trace:missing-from-the-Allow-set-of-OPTIONS-*-after-Clean")
+		o5, _ := zzServe(r, zzReq("TRACE", path))
+		zzv.Assert(o5.id == idTrc, "trace:not-answered-after-Clean")
 		return
 	}
 	zzv.Cover("trace-not-configured")
